@@ -437,6 +437,9 @@ class Tr:
                     return Sc("Q", "(- %s)%%Qc" % v.term)
                 if isinstance(v, Sc) and v.ty == "F":
                     return Sc("F", "(fneg %s)" % v.term)
+                if isinstance(v, Sc) and v.ty in VECTORS:
+                    body = {"VZ": "(- ea)%Z", "VQ": "(- ea)%Qc", "VF": "(fneg ea)"}[v.ty]
+                    return Sc(v.ty, "(map (fun ea => %s) %s)" % (body, v.term))
                 self.err("unary minus of %s" % self.show_ty(v), e)
             if isinstance(e.op, ast.UAdd):
                 return self.expr(e.operand, env, facts)
@@ -649,6 +652,12 @@ class Tr:
             if isinstance(s, ast.AugAssign):
                 if not isinstance(s.target, ast.Name):
                     self.err("augmented assignment to %s" % ast.unparse(s.target), s)
+                cur = env.get(s.target.id)
+                if not (isinstance(cur, Sc) and cur.ty in SCALARS):
+                    # `acc += x` on a pandas object updates it IN PLACE: the state the caller still holds (the one emitted
+                    # for the previous batch) would change under its feet.  On numbers it is a plain rebinding.
+                    self.err("augmented assignment to %s, which holds %s: an in-place update of an object the caller can see"
+                             % (s.target.id, self.show_ty(cur) if cur is not None else "nothing"), s)
                 if isinstance(s.op, ast.Pow):
                     if not (isinstance(s.value, ast.Constant) and isinstance(s.value.value, int)):
                         self.err("power with an exponent that is not an integer literal", s)
